@@ -26,6 +26,9 @@ import (
 
 const mod = "github.com/rpcpool/yellowstone-faithful"
 
+// generators added by other files of this package through init()
+var generators []func()
+
 var (
 	repo   = "/repo"
 	outDir = "/verif/lean/Faithful/Generated"
@@ -221,6 +224,10 @@ func main() {
 	genConsts()
 	genIntFns()
 	genLockPrograms()
+	// further generators register themselves: `func init() { generators = append(generators, genXxx) }`
+	for _, g := range generators {
+		g()
+	}
 	sort.Strings(fails)
 	for _, f := range fails {
 		fmt.Println("EXTRACT-FAIL:", f)
